@@ -123,3 +123,85 @@ Proof.
   rewrite R3. reflexivity.
 Qed.
 End WithOps.
+
+(* ---------- C04: saving the reloaded object writes the same bytes again ---------- *)
+Lemma upper_c_idem : forall c, upper_c (upper_c c) = upper_c c.
+Proof.
+  intros c. unfold upper_c. destruct ((97 <=? c) && (c <=? 122)) eqn:E; [|rewrite E; reflexivity].
+  assert (E2 : (97 <=? c - 32) && (c - 32 <=? 122) = false) by lia. rewrite E2. reflexivity.
+Qed.
+Lemma upper_idem : forall n, upper (upper n) = upper n.
+Proof. intros n. unfold upper. rewrite map_map. apply map_ext. exact upper_c_idem. Qed.
+Lemma upper_length : forall n, length (upper n) = length n.
+Proof. intros n. unfold upper. apply map_length. Qed.
+
+Definition ds_name_stable (p : param) : Prop := is_ds p = false -> bstr_eqb (upper (p_name p)) nm_DATA_START = false.
+
+Lemma name_len_byte_upper : forall n l, name_len_byte (upper n) l = name_len_byte n l.
+Proof. intros n l. unfold name_len_byte, zlen. rewrite upper_length. reflexivity. Qed.
+
+Lemma param_record_canon : forall v p gid, ds_name_stable p -> param_record (canon_p v p) gid = param_record p gid.
+Proof.
+  intros v p gid Hs. unfold canon_p. destruct (is_ds p) eqn:D.
+  - (* the DATA_START parameter: its value is not written (the slot is patched afterwards) *)
+    assert (En : p_name p = nm_DATA_START) by (apply bstr_eqb_eq; exact D).
+    unfold param_record, data_bytes, upper_name, with_val. cbn [p_name p_desc p_lock p_type p_dims p_ints p_floats p_strs].
+    rewrite En. change (upper nm_DATA_START) with nm_DATA_START.
+    assert (Eb : bstr_eqb nm_DATA_START nm_DATA_START = true) by reflexivity. rewrite Eb.
+    destruct (has_size (p_dims p) <=? 0)%Z; [reflexivity|]. destruct (p_type p); reflexivity.
+  - specialize (Hs D). unfold is_ds in D.
+    unfold param_record, data_bytes, upper_name. cbn [p_name p_desc p_lock p_type p_dims p_ints p_floats p_strs].
+    rewrite Hs, D, upper_idem, name_len_byte_upper. reflexivity.
+Qed.
+
+Lemma group_record_canon : forall v g gid, group_record (canon_g v g) gid = group_record g gid.
+Proof. intros v g gid. unfold group_record, canon_g. cbn [g_name g_desc g_lock]. rewrite upper_idem, name_len_byte_upper. reflexivity. Qed.
+
+Lemma params_records_canon : forall v ps gid base acc dsp, (forall p, In p ps -> ds_name_stable p) ->
+  params_records (map (canon_p v) ps) gid base acc dsp = params_records ps gid base acc dsp.
+Proof.
+  intros v ps. induction ps as [|p t IH]; intros gid base acc dsp H; cbn [map params_records]; [reflexivity|].
+  rewrite (param_record_canon v p gid (H p (or_introl eq_refl))).
+  destruct (param_record p gid) as [[bs ds]| |]; cbn [obind]; try reflexivity.
+  apply IH. intros q Hq. apply H. right. exact Hq.
+Qed.
+
+Lemma groups_records_canon : forall v gs gid base acc dsp,
+  (forall g, In g gs -> forall p, In p (g_params g) -> ds_name_stable p) ->
+  groups_records (map (canon_g v) gs) gid base acc dsp = groups_records gs gid base acc dsp.
+Proof.
+  intros v gs. induction gs as [|g t IH]; intros gid base acc dsp H; cbn [map groups_records]; [reflexivity|].
+  assert (Ht : forall g', In g' t -> forall p, In p (g_params g') -> ds_name_stable p) by (intros g' Hg'; apply H; right; exact Hg').
+  assert (Ep : (match g_name (canon_g v g) with [] => true | _ => false end) && (nlen (g_params (canon_g v g)) =? 0)
+             = (match g_name g with [] => true | _ => false end) && (nlen (g_params g) =? 0)).
+  { unfold canon_g. cbn [g_name g_params]. unfold nlen. rewrite map_length. destruct (g_name g); reflexivity. }
+  rewrite Ep. destruct ((match g_name g with [] => true | _ => false end) && (nlen (g_params g) =? 0)); [apply IH; exact Ht|].
+  rewrite group_record_canon. unfold canon_g at 1. cbn [g_params].
+  rewrite (params_records_canon v (g_params g) gid base _ dsp (H g (or_introl eq_refl))).
+  destruct (params_records (g_params g) gid base (acc ++ group_record g gid) dsp) as [[acc' dsp']| |]; cbn [obind]; try reflexivity.
+  apply IH. exact Ht.
+Qed.
+
+Lemma data_section_rename : forall pn an fs, data_section (map (rename_frame pn an) fs) = data_section fs.
+Proof.
+  intros pn an fs. unfold data_section. rewrite map_map. f_equal. apply map_ext. intros f.
+  unfold frame_bytes, rename_frame. cbn [fr_pts fr_subs]. f_equal.
+  - f_equal. generalize 0 at 1. induction (fr_pts f) as [|p t IH]; intros i; cbn [rename_points map]; [reflexivity|]. rewrite IH. reflexivity.
+  - f_equal. rewrite map_map. apply map_ext. intros sf. f_equal.
+    generalize 0 at 1. induction sf as [|c t IH]; intros i; cbn [rename_chans map]; [reflexivity|]. rewrite IH. reflexivity.
+Qed.
+
+Lemma header_bytes_dstart : forall h d x, header_bytes (with_dstart h d) x = header_bytes h x.
+Proof. intros h d x. reflexivity. Qed.
+
+(* THE FIXPOINT: saving what was reloaded gives the same file *)
+Theorem save_reloaded : forall s blocks pn an,
+  ps_start (pro s) = 1 ->
+  (forall g, In g (groups s) -> forall p, In p (g_params g) -> ds_name_stable p) ->
+  save (reloaded s blocks pn an) = save s.
+Proof.
+  intros s blocks pn an Hst Hs. unfold save, reloaded, section_bytes. cbn [pro groups hdr frames ps_start].
+  rewrite Hst. rewrite groups_records_canon by exact Hs.
+  destruct (groups_records (groups s) 1 512 _ None) as [[recs dsp]| |]; cbn [obind]; try reflexivity.
+  destruct (finish_section recs dsp) as [sec bl]. rewrite header_bytes_dstart, data_section_rename. reflexivity.
+Qed.
